@@ -336,6 +336,34 @@ def bounded(ctx, real, rng):
             break
         if len(samples) < 3 and len(ops) >= 4:
             samples.append(ops)
+    if not fail:
+        # directed documents: the same pattern list in two (and in many) paragraphs with other matching paragraphs between them -
+        # the LAST matching paragraph wins, whatever its patterns have in common with earlier ones; 120 paragraphs
+        for label, lists in (("repeated list", [["src/*"], ["src/vendor/*"], ["debian/*"], ["src/*"]]),
+                             ("repeated list, the specific one last", [["src/*"], ["debian/*"], ["src/*"], ["src/vendor/*"]]),
+                             ("120 paragraphs", [["dir%d/*" % (i % 7), "common/*"] if i % 3 else ["dir%d/sub/*" % (i % 7)] for i in range(120)])):
+            c = real.Copyright()
+            objs = []
+            for gs in lists:
+                fp = real.FilesParagraph.create(list(gs), "c", real.License("L"))
+                c.add_files_paragraph(fp)
+                objs.append(fp)
+            for name in ("src/vendor/zlib.c", "src/main.c", "debian/rules", "dir3/sub/x", "dir3/y", "common/z", "nothing"):
+                evals += 1
+                exp = model_find(lists, name)
+                try:
+                    got = c.find_files_paragraph(name)
+                except Exception as e:
+                    fail = dict(what="find_files_paragraph raised %r" % (e,), document=label, name=name)
+                    break
+                if not ((got is None and exp is None) or (exp is not None and got is objs[exp])):
+                    fail = dict(what="find_files_paragraph does not return the last matching Files paragraph", document=label,
+                                pattern_lists=lists if len(lists) < 10 else "(120 generated lists)", name=name, expected_index=exp,
+                                got_index=(objs.index(got) if got in objs else None))
+                    break
+                nontrivial.add((label, name))
+            if fail:
+                break
     ctx.bounded("B-16 find_files_paragraph over documents and histories (add / set files / query)", evals, len(nontrivial),
                 "seeded histories of 2-7 operations over 11 glob lists plus long generated lists with hyphenated patterns (two with an illegal escape: every query must raise, also the second time) and 11 file names (incl. names with newline, prefix-of-pattern "
                 "names); reference model: index of the last Files paragraph with a matching glob; non-trivial = distinct "
